@@ -705,20 +705,27 @@ def oracle_case(case, res):
     cf = case["stream"] == "cf" and complete_env(case, built)
     if "out" not in main:
         if cf and main.get("err") and not main.get("skip"):
-            cls = "D19" if d19_class(case, built) else ("D74" if d74_class(case, built) and main.get("err") == "NotSetup" else None)
+            if main.get("err") == "NotSetup" and d74_class(case, built) and any(
+                    (" %s is not setup" % l["name"]) in (main.get("errmsg") or "") for l in L.inactive_setup_lines(build_table(case, *case["top"]))):
+                cls = "D74"             # the product the expander misses is the one of a line inside a block that does not apply
+            else:
+                cls = "D19" if d19_class(case, built) else None
             yield ("expansion_succeeds", cls, "conflict-free build with every required dependency set up, yet the "
                    "expansion raised %s (%s)" % (main.get("err"), main.get("errmsg")), 0)
         return
     blk = L.exact_block(main["out"].split("\n"))
     empty_exact = blk is not None and len(blk) == 0
     # D74, second form: a setup line inside a block of the table that has an else branch -> nested blocks in the expanded table
-    nested_else = L.setup_in_block_with_else(build_table(case, *case["top"]))
+    #   (or inside a block that does not apply: the nested `if (type …) {` block makes the parser drop the outer condition, so the
+    #   line is applied after all)
+    nested_else = (L.setup_in_block_with_else(build_table(case, *case["top"]))
+                   or bool(L.inactive_setup_lines(build_table(case, *case["top"]))))
     for clause, detail in oracle_parser(case, res):
         # D4 (table parser, empty branch): `if (type == exact) { } else { X }` drops X in inexact mode, applies it in exact mode
-        yield (clause, "D4" if empty_exact else ("D74" if nested_else else None), detail, 0)
+        yield (clause, "D74" if nested_else else ("D4" if empty_exact else None), detail, 0)
     if "exact" not in main["text"]:
         for detail in oracle_exact_actions(case, res):
-            yield ("exact_actions", "D4" if empty_exact else ("D74" if nested_else else None), detail, 0)
+            yield ("exact_actions", "D74" if nested_else else ("D4" if empty_exact else None), detail, 0)
     if cf:
         if res.get("exact_ok") is not True or res.get("exact_records") != built:
             xr = res.get("exact_records") or {}
@@ -904,6 +911,8 @@ def evaluate(ctx, cases):
             continue
         ctx.hist("closure_size=%d" % min(len(r["built"]) - 1, 5))
         for l in topl:
+            if l["k"] == "setup" and l.get("in_block"):
+                ctx.hist("setup_line_in_own_block=%s" % l["in_block"])
             if l["k"] == "setup":
                 sp = l.get("spec") or {}
                 ctx.hist("spec=%s" % ("+".join(sorted(sp)) or "bare"))
